@@ -12,6 +12,8 @@ LEVEL = "model_checking"
 
 HEADER = ("package main\n\nimport frt\nimport slice\nimport dict\nimport buf\n\npackage_info _ =\n  let extEmpty<T>: ()->[]T\n\n"
           "type Doc = {Body: Buffer; Keys: []Dict}\nand Buffer = {N: int}\nand Dict = {M: int}\n\n"
+          "type unit = {UName: string}\ntype list = {LName: string}\ntype option = {OName: string}\ntype void = {VName: string}\ntype obj = {JName: string}\n\n"
+          "type node_id = {I1: int}\ntype cost = {I2: int}\ntype node = {I3: int}\ntype id_cost = {I4: int}\n\n"
           "type Box<T> = {V: T}\n\ntype Duo<A, B> = {P: A; Q: B}\n\ntype Res<T> =\n| Succ of T\n| Fail\n\nlet ident x =\n  x\n\n")
 
 
@@ -196,6 +198,17 @@ def run(ctx):
     # `type .. and ..` group: they are the user's types, not package-qualified
     specs.append((["named", "Buffer", []], ["Buffer"], "min", "hdrBody", "Buffer"))
     specs.append((["slice", ["named", "Dict", []]], ["[]", "Dict"], "min", "hdrKeys", "[]Dict"))
+    # user types with names that are keywords or built-in types of related languages (unit, list, option, void, obj): ordinary names here
+    for nm in ("unit", "list", "option", "void", "obj"):
+        nt = ["named", nm, []]
+        for term, toks, go in ((nt, [nm], nm), (["slice", nt], ["[]", nm], "[]" + nm), (["tuple", [nt, ["base", "int"]]], [nm, "*", "int"], "frt.Tuple2[%s,int]" % nm),
+                               (["func", [nt], ["base", "int"]], [nm, "->", "int"], "func(%s)int" % nm), (["named", "Box", [nt]], ["Box", "<", nm, ">"], "Box[%s]" % nm)):
+            for pos in ("param", "field", "payload", "targ", "result"):
+                specs.append((term, toks, "min", pos, go))
+    # two instances of one generic type whose type argument NAMES joined by _ coincide (node_id + cost / node + id_cost), in one file
+    for a, b in (("node_id", "cost"), ("node", "id_cost")):
+        for pos in ("param", "field", "payload", "targ", "result"):
+            specs.append((["named", "Duo", [["named", a, []], ["named", b, []]]], ["Duo", "<", a, ",", " ", b, ">"], "min", pos, "Duo[%s,%s]" % (a, b)))
     lines, bad = run_items(ctx, specs)
     d1 = 0
     for i, l in enumerate(lines):
